@@ -83,6 +83,14 @@ Theorem C12_backoff_schedule_closed_form : forall c (a : nat -> Z) k,
   cur_at c (S k) = Z.min (a k) (max_interval c).
 Proof. exact cur_at_closed_form. Qed.
 
+(** the randomisation interval is tight: every value in [delay_lo, delay_hi] is returned for
+    some random number in [0,1) — the membership test of the monitor is not looser than the model *)
+Theorem C12_delay_interval_tight : forall (rf : Q) (cur d : Z),
+  (0 <= rf)%Q -> (rf <= 1)%Q -> 0 <= cur ->
+  delay_lo rf cur <= d <= delay_hi rf cur ->
+  exists r, (0 <= r)%Q /\ (r < 1)%Q /\ rand_value rf r cur = d.
+Proof. exact rand_value_complete. Qed.
+
 (** fewer retries than configured although every attempt failed: only by leaving through
     ctx.Done(), which was ready because the message context had been cancelled or
     MaxElapsedTime had passed since the first failure; the error is still returned
@@ -132,6 +140,7 @@ Print Assumptions C12_exhausted_returns_last_error.
 Print Assumptions C12_hook_sequence.
 Print Assumptions C12_backoff_lower_bound.
 Print Assumptions C12_backoff_schedule_closed_form.
+Print Assumptions C12_delay_interval_tight.
 Print Assumptions C12_early_exit_only_on_ctx.
 Print Assumptions C12_gives_up_when_context_ends.
 Print Assumptions C12_max_elapsed_gives_up_partial.
